@@ -116,6 +116,7 @@ func (w *World) emit(ev Ev) {
 	}
 	w.out.Write(b)
 	w.out.WriteByte('\n')
+	w.out.Flush() // the process may die with an unrecoverable runtime error inside the library
 	w.nEvents++
 	if e, ok := ev["e"].(string); ok {
 		w.cats[e]++
@@ -490,6 +491,9 @@ func (w *World) resolvePeek(h *StoreH, img []byte, n *gkvlite.VerifNode, depth i
 	if n == nil {
 		return nil
 	}
+	if n.Cut || depth > 4096 {
+		return fmt.Errorf("cached tree deeper than 4096 (cycle through recycled nodes?)")
+	}
 	if !n.Loaded {
 		if img == nil {
 			return fmt.Errorf("unloaded node without file")
@@ -654,7 +658,14 @@ func (w *World) reachableFree() int {
 	bad := 0
 	var walk func(n *gkvlite.VerifNode)
 	walk = func(n *gkvlite.VerifNode) {
-		if n == nil || !n.Loaded {
+		if n == nil {
+			return
+		}
+		if n.Cut {
+			bad++
+			return
+		}
+		if !n.Loaded {
 			return
 		}
 		if free[n.Addr] || (n.Item == nil && n.ItemLen == 0) {
